@@ -403,6 +403,11 @@ def programs(tier, max_tree=None):
     return out
 
 
+# generated programs cheap enough for the quick tiers: partial constraints / selections *inside* a
+# Cond whose branches hold several sites (no hand-written program has that; see the aa3f929 fix)
+QUICK_GENERATED = ("cond[disc]", "cond[chain]")
+
+
 def _add_generated():
     """Systematically generated depth-1/2 compositions (thorough tiers only); see mc/generated.py."""
     from mc import generated as G
@@ -410,7 +415,7 @@ def _add_generated():
     for name, (prog, argsl, nl) in G.generated(3000, 2).items():
         if name in FAMILY:
             continue
-        FAMILY[name] = (prog, [argsl[0]], "thorough")
+        FAMILY[name] = (prog, [argsl[0]], "quick" if name in QUICK_GENERATED else "thorough")
         ALT_ARGS[name] = [argsl[1]]
         GENERATED_LEAVES[name] = nl
 
